@@ -84,6 +84,7 @@ struct FnCfg {
     slice_before: Option<String>, // R11
     ret_name: String,
     keep_name: bool,
+    no_eager_iter: bool,
 }
 
 struct R<'a> {
@@ -104,6 +105,8 @@ enum Stage {
     Map(ExprClosure),
     Filter(ExprClosure),
     FilterMap(ExprClosure),
+    MapWhile(ExprClosure),
+    TakeWhile(ExprClosure),
     Enumerate,
 }
 
@@ -224,7 +227,7 @@ impl<'a> R<'a> {
             if self.cfg.eager_methods.contains(&name) {
                 return true;
             }
-            if name == "iter" && mc.args.is_empty() {
+            if name == "iter" && mc.args.is_empty() && !self.fc.no_eager_iter {
                 let recv = norm(self.text(mc.receiver.span()));
                 return self
                     .cfg
@@ -289,6 +292,8 @@ impl<'a> R<'a> {
                         ("map", 1) => Stage::Map(closure_of(&mc.args[0])?),
                         ("filter", 1) => Stage::Filter(closure_of(&mc.args[0])?),
                         ("filter_map", 1) => Stage::FilterMap(closure_of(&mc.args[0])?),
+                        ("map_while", 1) => Stage::MapWhile(closure_of(&mc.args[0])?),
+                        ("take_while", 1) => Stage::TakeWhile(closure_of(&mc.args[0])?),
                         ("enumerate", 0) => Stage::Enumerate,
                         _ => return None,
                     };
@@ -358,6 +363,30 @@ impl<'a> R<'a> {
                         ));
                         cur = nx;
                         closers += 1;
+                    }
+                    Stage::MapWhile(c) => {
+                        if p.sources.len() != 1 {
+                            die("map_while after chain");
+                        }
+                        let pat = self.closure_single_pat(c);
+                        let b = self.closure_body_expr(c);
+                        let nx = format!("__m{}", self.fresh());
+                        body.push_str(&format!(
+                            "let {} = {};\nlet {} = match {} {{ Some(__w) => __w, None => break }};\n",
+                            pat, cur, nx, b
+                        ));
+                        cur = nx;
+                    }
+                    Stage::TakeWhile(c) => {
+                        if p.sources.len() != 1 {
+                            die("take_while after chain");
+                        }
+                        let pat = self.closure_single_pat(c);
+                        let b = self.closure_body_expr(c);
+                        body.push_str(&format!(
+                            "if !{{ let {} = &{}; {} }} {{ break; }}\n",
+                            pat, cur, b
+                        ));
                     }
                     Stage::Enumerate => {
                         let nx = format!("__m{}", self.fresh());
@@ -1434,6 +1463,7 @@ fn main() {
             slice_before: it["slice_before"].as_str().map(|s| s.to_string()),
             ret_name: it["ret_name"].as_str().unwrap_or("res").to_string(),
             keep_name: false,
+            no_eager_iter: it["no_eager_iter"].as_bool().unwrap_or(false),
         };
         let opaque_fields: Vec<String> = it["opaque_fields"]
             .as_array()
